@@ -48,7 +48,7 @@ func genTree(t *rapid.T, depth int, topSpace string) xnode {
 		})
 	}
 	if depth < 3 {
-		for i, k := 0, rapid.IntRange(0, 3).Draw(t, "nkids"); i < k; i++ {
+		for i, k := 0, listLen(t, "nkids", 3); i < k; i++ {
 			if rapid.Bool().Draw(t, "textKid") {
 				if s := genTextNE().Draw(t, "text"); len(n.Kids) == 0 || n.Kids[len(n.Kids)-1].Local != "" {
 					n.Kids = append(n.Kids, xnode{Text: s})
@@ -217,7 +217,7 @@ func genRosterItem(t *rapid.T) roster.Item {
 		Name:         genOpt().Draw(t, "name"),
 		Subscription: rapid.SampledFrom([]string{"", "none", "to", "from", "both", "remove", "<&>"}).Draw(t, "sub"),
 	}
-	for n := rapid.IntRange(0, 3).Draw(t, "ngroups"); n > 0; n-- {
+	for n := listLen(t, "ngroups", 3); n > 0; n-- {
 		it.Group = append(it.Group, genText().Draw(t, "group"))
 	}
 	return it
@@ -274,7 +274,7 @@ func init() {
 			var iq roster.IQ
 			iq.IQ = genIQ(t)
 			iq.Query.Ver = genOpt().Draw(t, "ver")
-			for n := rapid.IntRange(0, 3).Draw(t, "nitems"); n > 0; n-- {
+			for n := listLen(t, "nitems", 3); n > 0; n-- {
 				iq.Query.Item = append(iq.Query.Item, genRosterItem(t))
 			}
 			return iq
